@@ -14,6 +14,10 @@ namespace verif_w4 {
 int run_cli(const std::vector<std::string>& args);
 void reset_main_globals();
 bool serve_loop_running();
+// the Node (and its mutex) that the simulated daemon process `pid` serves; nullptr when it is not (or no longer) serving
+ephemeralnet::Node* daemon_node(int pid);
+std::mutex* daemon_node_mutex(int pid);
+void reset_daemon_registry();
 }  // namespace verif_w4
 
 namespace wl {
@@ -66,6 +70,15 @@ struct Daemon {
         if (token) { a.push_back("--control-token"); a.push_back(*token); }
         for (auto& e : extra_args) a.push_back(e);
         return a;
+    }
+    // runs f(node) on a fiber of the daemon's own process, under the daemon's node mutex (like a control command would)
+    template <class F> bool with_node(F&& f) {
+        auto* node = verif_w4::daemon_node(pid);
+        auto* mutex = verif_w4::daemon_node_mutex(pid);
+        if (!node || !mutex || !sk::alive(pid)) return false;
+        std::scoped_lock lock(*mutex);
+        f(*node);
+        return true;
     }
     void start() {
         verif_w4::reset_main_globals();
